@@ -44,10 +44,10 @@ PROPS = {
     "C01": dict(
         module="OrbitModel.Properties.C01",
         theorems=["Orbit.C01.same_entries_same_listing"],
-        families=[("kv", 60, 1500, 14), ("doc", 40, 1000, 12), ("log", 40, 1000, 14)],
-        corr_fields={"values", "heads", "idx", "len"},
+        families=[("kv", 60, 1500, 14), ("doc", 40, 1000, 12), ("log", 40, 1000, 14), ("routes", 40, 1000, 12), ("reload", 40, 1000, 12)],
+        corr_fields={"values", "heads", "idx", "len", "time", "next", "load"},
         nontrivial=nt_multiwriter_merge,
-        rule="PRNG histories of 1-4 writers on kv/doc/eventlog stores with interleaved Sync deliveries in random order; every observation of every replica is keyed by its entry set and compared with every other observation of the same set in the scenario; non-trivial = >=2 writers, >=1 merged batch, >=3 entries",
+        rule="PRNG histories of 1-4 writers on kv/doc/eventlog stores with interleaved Sync deliveries in random order; plus histories over every route (announce, exchange-on-join, Sync, reload after restart) with writes continuing after restarts; every observation of every replica is keyed by its entry set and compared with every other observation of the same set in the scenario; the Lamport time and parents of every new entry are compared with the model's (a writer re-using a (time, id) pair breaks the property's tie-freedom premise); non-trivial = >=2 writers, >=1 merged batch, >=3 entries",
         trusted_base=LOGCORE,
         assumptions=["TieFree (stated in the property)", "fetch order inside a batch is the Go scheduler's, recorded and replayed"],
     ),
@@ -77,7 +77,7 @@ PROPS = {
     "C05": dict(
         module="OrbitModel.Properties.C05",
         theorems=["Orbit.C05.acknowledged_survive_any_crash", "Orbit.C05.cached_heads_cover_the_log"],
-        families=[("routes", 100, 3000, 14), ("kv", 40, 1000, 12)],
+        families=[("routes", 100, 3000, 14), ("kv", 40, 1000, 12), ("reload", 40, 1000, 12)],
         corr_fields={"values", "heads", "idx", "len", "local", "remote", "load"},
         nontrivial=lambda lines: any(l.startswith("restarted ") for l in lines) and sum(1 for l in lines if l.startswith("entry ")) >= 2,
         rule="histories of writes and replications by every route with instance restarts (close everything, new instance on the same keystore and cache, Load(-1)) at PRNG-chosen moments; after every step the cached heads must cover the whole log (the crash-prefix invariant) and after every restart the identity must be the same and the recovered state must equal the pre-restart state; non-trivial = at least one restart with >= 2 entries",
@@ -122,7 +122,7 @@ PROPS = {
     "C02": dict(
         module="OrbitModel.Properties.C02",
         theorems=["Orbit.C02.every_replica_gets_every_write", "Orbit.C02.held_never_shrinks", "Orbit.C02.final_phase_exists"],
-        families=[("routes", 120, 4000, 14)],
+        families=[("routes", 120, 4000, 14), ("reload", 30, 800, 12)],
         corr_fields={"values", "heads", "exchange", "local", "remote", "load", "len"},
         nontrivial=nt_multiwriter_merge,
         rule="PRNG scripts on 2-4 replicas: writes, manual syncs, announcements delivered late/twice/out of order, exchange-on-join (delivered, dropped, duplicated), link cuts and heals, instance restarts; final phase heals every link and exchanges heads for every ordered pair; every replica must then list every acknowledged write; non-trivial = >=2 writers, >=1 merged batch, >=3 entries",
